@@ -13,7 +13,9 @@ import Solvor.Pack.Model
 `["pack", sR, capR, sBits, capBits, useBest, decreasing, implAsg|null, implK|null, wantOpt]`
   reply `[[statusF|"ValueError", asgF, kF],                           -- Float mirror of solve_bin_pack
           [statusR|"ValueError", asgR, kR, chkR],                     -- Rat mirror (theorem subject) + checker on it
-          chkImpl|null, minBins|null, ceil(sum/cap)]`
+          chkImpl|null,
+          [minBins, witness assignment, chkPack on the witness] | null,   -- bounded oracle + verified certificate
+          ceil(sum/cap)]`
 -/
 namespace Solvor.Pack
 open Solvor.Proto
@@ -56,7 +58,10 @@ def handlePack (sR : List Rat) (capR : Rat) (sB : List Nat) (capB : Nat) (useBes
   let chkI : Val := match implAsg, implK with
     | some a, some k => Val.bool (chkPack sR capR a k)
     | _, _ => Val.null
-  let opt : Val := if wantOpt && decide (0 < capR) then Val.int (minBins sR capR) else Val.null
+  let opt : Val := if wantOpt && decide (0 < capR) then
+      let r := minBins sR capR
+      Val.arr [Val.int r.1, Val.ofNats r.2, Val.bool (chkPack sR capR r.2 r.1)]
+    else Val.null
   let lb : Int := if 0 < capR then (sR.sum / capR).ceil else 0
   Val.arr [Val.arr (packVal mf), Val.arr (packVal mr ++ [Val.bool chkR]), chkI, opt, Val.int lb]
 
